@@ -248,10 +248,9 @@ Definition json_valid (d : bytes) : bool :=
 (* ---- what compaction does, stated without the scanner --------------------------------- *)
 
 (* A three-state reading of the text: outside a string literal, inside one, just after a
-   backslash inside one.  squeeze drops white space outside string literals and writes
-   '<' '>' '&' U+2028 U+2029 as \uXXXX escapes; every other byte is kept.  ErrsJsonProofs
-   shows compact d = Some d' -> d' = squeeze SqOut d: that is the sense in which Error.Data
-   arrives JSON-equal. *)
+   backslash inside one.  squeeze drops white space outside string literals and, inside
+   string literals, writes '<' '>' '&' U+2028 U+2029 as \uXXXX escapes; every other byte is
+   kept.  ErrsJsonProofs shows compact d = Some d' -> d' = squeeze SqOut d. *)
 Inductive sqst := SqOut | SqIn | SqEsc.
 
 Fixpoint squeeze (st : sqst) (bs : bytes) : bytes :=
@@ -260,8 +259,8 @@ Fixpoint squeeze (st : sqst) (bs : bytes) : bytes :=
   | c :: r =>
       match st with
       | SqOut => if is_space c then squeeze SqOut r
-                 else html_emit c ++ squeeze (if c =? 34 then SqIn else SqOut) r
-      | SqEsc => html_emit c ++ squeeze SqIn r
+                 else c :: squeeze (if c =? 34 then SqIn else SqOut) r
+      | SqEsc => c :: squeeze SqIn r
       | SqIn =>
           match ls_ahead c r with
           | Some b2 =>
@@ -274,6 +273,78 @@ Fixpoint squeeze (st : sqst) (bs : bytes) : bytes :=
           end
       end
   end.
+
+(* ---- the content of a JSON text ("JSON-equal") ------------------------------------------- *)
+
+(* json_content reads a text into the sequence of things that carry its meaning: the bytes
+   outside string literals except white space (punctuation, numbers, true/false/null, the
+   quotes), and inside string literals the characters, where an ASCII byte and the \uXXXX
+   escape of the same code unit are the same token, and so are the UTF-8 bytes of U+2028 /
+   U+2029 and their escapes.  Two texts with the same content denote the same JSON value (the
+   converse does not hold: "\n" and "\u000a", 1.0 and 1.00, or reordered members are equal
+   values with different contents).  ErrsJsonProofs shows that compaction keeps the content:
+   that is the sense in which Error.Data arrives JSON-equal.  The reader is total: on a text
+   that is not JSON it resynchronises (TBad), which makes json_content (squeeze SqOut d) =
+   json_content d hold for every d. *)
+Inductive cst := COut | CIn | CEsc | CU (k : nat) (acc : N) | CE2 | CE280.
+
+Inductive tok :=
+| TOut (b : N)      (* a significant byte outside string literals, or a quote *)
+| TCh (n : N)       (* a character of a string: an ASCII byte, a \uXXXX code unit, U+2028, U+2029 *)
+| TEsc (b : N)      (* a two-character escape \b *)
+| TByte (b : N)     (* any other byte of a string (of a multi-byte UTF-8 sequence) *)
+| TBad.             (* an unfinished escape: the text is not JSON *)
+
+Definition hexval (c : N) : N :=
+  if is_digit c then c - 48 else if 97 <=? c then c - 87 else c - 55.
+
+(* a byte read inside a string literal with nothing pending *)
+Definition in_byte (c : N) : cst * list tok :=
+  if c =? 34 then (COut, [TOut 34])
+  else if c =? 92 then (CEsc, [])
+  else if c =? 226 then (CE2, [])
+  else if c <? 128 then (CIn, [TCh c])
+  else (CIn, [TByte c]).
+
+(* what was pending did not continue: flush it and read c afresh *)
+Definition after (pending : list tok) (c : N) : cst * list tok :=
+  let (st, t) := in_byte c in (st, pending ++ t).
+
+Definition cstep (st : cst) (c : N) : cst * list tok :=
+  match st with
+  | COut => if is_space c then (COut, []) else (if c =? 34 then CIn else COut, [TOut c])
+  | CIn => in_byte c
+  | CEsc => if c =? 117 then (CU 0 0, []) else (CIn, [TEsc c])
+  | CU k acc =>
+      if is_hex c then
+        match k with
+        | 3%nat => (CIn, [TCh (acc * 16 + hexval c)])
+        | _ => (CU (S k) (acc * 16 + hexval c), [])
+        end
+      else after [TBad] c
+  | CE2 => if c =? 128 then (CE280, []) else after [TByte 226] c
+  | CE280 => if c =? 168 then (CIn, [TCh 8232])
+             else if c =? 169 then (CIn, [TCh 8233])
+             else after [TByte 226; TByte 128] c
+  end.
+
+Fixpoint crun (st : cst) (bs : bytes) : cst * list tok :=
+  match bs with
+  | [] => (st, [])
+  | c :: r => let (s1, t1) := cstep st c in
+              let (s2, t2) := crun s1 r in (s2, t1 ++ t2)
+  end.
+
+Definition cflush (st : cst) : list tok :=
+  match st with
+  | COut | CIn => []
+  | CEsc | CU _ _ => [TBad]
+  | CE2 => [TByte 226]
+  | CE280 => [TByte 226; TByte 128]
+  end.
+
+Definition json_content (d : bytes) : list tok :=
+  let (st, t) := crun COut d in t ++ cflush st.
 
 (* ---- strings through json.Marshal / json.Unmarshal ------------------------------ *)
 
